@@ -544,6 +544,10 @@ def check_style_copy(task):
                     return b.style
                 if how == "copykw_nodes":
                     return o.copy(**{"style_" + k: v for k, v in nodes.items()}).style
+            if how == "assign_style_object":   # the whole style OBJECT of another object assigned
+                b = FAMILIES[fam]()
+                b.style = o.style
+                return b.style
             if how == "same_data_list":   # the same user list of traces given to two objects
                 b = FAMILIES[fam]()
                 b.style.model3d.data = o.style.model3d.data
@@ -551,11 +555,13 @@ def check_style_copy(task):
             raise AssertionError(how)
 
         for how in ("style.copy", "get_style", "obj.copy.style", "ctor_as_dict", "setter_as_dict", "update_as_dict", "same_data_list",
-                    "assign_nodes", "ctor_nodes", "update_nodes", "copykw_nodes"):
+                    "assign_nodes", "ctor_nodes", "update_nodes", "copykw_nodes", "assign_style_object"):
             o = mk()
             before = norm(o.style.as_dict())
             dbefore = norm(lin(DS().as_dict()))
             cp = derive(o, how)
+            if how == "assign_style_object" and norm(cp.as_dict()) != before:
+                viols.append((f"assigned-style-object-not-taken-over:{variant}", [fam, how, variant], "b.style = a.style was accepted but b.style does not have a's values"))
             sh = shared_mutables(cp, o.style)
             if sh:
                 viols.append((f"style-copy-shares-objects:{how}:{variant}", [fam, how, variant], f"{sh[:3]}"))
